@@ -61,6 +61,7 @@ type Sched struct {
 	finished chan struct{}
 	wg       sync.WaitGroup
 	tseq     int
+	resets   []func()
 
 	// results of the execution
 	Steps    int
@@ -123,6 +124,12 @@ func Run(ch Chooser, cfg Config, body func()) *Sched {
 		}
 	}
 	s.wg.Wait()
+	// global lock objects (package-level mutexes of the code under test) must not stay locked by a thread
+	// that was cut off at the end of this execution
+	for _, r := range s.resets {
+		r()
+	}
+	s.resets = nil
 	S = nil
 	return s
 }
@@ -324,6 +331,7 @@ func pointY(what string, en func() bool, yield bool) {
 	}
 	t.en = nil
 	t.yield = false
+	t.h = mix(t.h, 0, 55) // passing a point is progress even if the operation touches no object
 }
 
 func always() bool { return true }
